@@ -588,8 +588,8 @@ func (it *item) add(b []byte, err error) {
 }
 
 func TestRun(t *testing.T) {
-	// keep a runaway allocation from hurting the machine: address space limit 48 GiB
-	lim := syscall.Rlimit{Cur: 48 << 30, Max: 48 << 30}
+	// keep a runaway allocation from hurting the machine: address space limit 10 GiB
+	lim := syscall.Rlimit{Cur: 10 << 30, Max: 10 << 30}
 	_ = syscall.Setrlimit(syscall.RLIMIT_AS, &lim)
 	out := newOut(vfd.Env("VF_OUT", "trace.ndjson"))
 	defer out.Close()
@@ -716,7 +716,7 @@ func runDec(out *outw) {
 	cases := vfd.ReadCases(vfd.Env("VF_CASES", "cases.ndjson"))
 	from := vfd.EnvInt("VF_FROM", 0)
 	var ms runtime.MemStats
-	gross, maxGross := 0, vfd.EnvInt("VF_MAX_GROSS", 25)
+	gross, maxGross := 0, vfd.EnvInt("VF_MAX_GROSS", 10)
 	for i, c := range cases {
 		if i < from {
 			continue
